@@ -160,3 +160,42 @@ func BlockPanicFindings(prop string, bo BlockOutcome) []Finding {
 	}
 	return fs
 }
+
+// Select keeps the findings of the property `mode` (signature prefix "<mode>/"). `adopt` maps signature
+// prefixes of other properties to the prefix they take under this mode (used by C13, which re-reads the
+// due-processing oracles of the module drivers as "handled exactly once at its due height").
+func Select(fs []Finding, mode string, adopt map[string]string) []Finding {
+	var out []Finding
+	for _, f := range fs {
+		if strings.HasPrefix(f.Sig, mode+"/") {
+			out = append(out, f)
+			continue
+		}
+		for from, to := range adopt {
+			if strings.HasPrefix(f.Sig, from) {
+				f.Sig = to + strings.TrimPrefix(f.Sig, from)
+				out = append(out, f)
+				break
+			}
+		}
+	}
+	return out
+}
+
+// QueueEntries returns the (height, rest-of-key) pairs of a time-bound queue stored as prefix|height(8)|rest.
+func QueueEntries(ctx sdk.Context, e *Env, store string, prefix byte) []QueueEntry {
+	var out []QueueEntry
+	for _, kv := range DumpStore(ctx, e, store) {
+		if len(kv.K) >= 9 && kv.K[0] == prefix {
+			out = append(out, QueueEntry{Height: int64(sdk.BigEndianToUint64(kv.K[1:9])), Rest: append([]byte{}, kv.K[9:]...), Value: kv.V})
+		}
+	}
+	return out
+}
+
+// QueueEntry is one entry of a height-indexed queue.
+type QueueEntry struct {
+	Height int64
+	Rest   []byte
+	Value  []byte
+}
